@@ -27,6 +27,10 @@ def frontier_jobs(tier):
              "_obligation": "O3", "_covers": ["delivered"], "unwind": 40, "reset_mode": True},
             {"id": "O3.frontier.counter.two-chains-3-2", "func": "VerifH_C02_Deliver",
              "conf": {"n": 6, "kind": 1, "del": -1, "deliveries": 3, "hasfield": 1, "class": 2, "dag": _c02.SHAPES["two-chains-3-2"], "orders": "two", "shortid": 0},
+             "_obligation": "O3", "_covers": ["delivered"], "unwind": 60, "reset_mode": True},
+            {"id": "O3.frontier.counter.long-short-merge-late-fork", "func": "VerifH_C02_Deliver",
+             "conf": {"n": 8, "kind": 1, "del": -1, "deliveries": 2 if tier == "quick" else 3, "hasfield": 1, "class": 2,
+                      "dag": _c02.SHAPES["long-short-merge-late-fork"], "orders": "two", "shortid": 0},
              "_obligation": "O3", "_covers": ["delivered"], "unwind": 60, "reset_mode": True}]
 
 
@@ -49,7 +53,7 @@ PROPERTY = {
          "jobs": block_jobs, "overrides": OVR, "unwind": 30},
         dict(_c02.SUITE, name="frontier", jobs=frontier_jobs),
     ],
-    "bounds": {"commits": "3 (quick) / 4 (thorough), <=2 parents, all hash orders, all downward-closed merged sets", "heads/links passed to New": "<=3, all permutations"},
+    "bounds": {"commits": "3 (quick) / 4 (thorough), <=2 parents, all hash orders, all downward-closed merged sets; plus fixed 6- and 8-commit histories (two hash orders) for the frontier of the document and of the field after 2-3 deliveries", "heads/links passed to New": "<=3, all permutations"},
     "assumptions": ["a block's link is a function of its content (synthetic CIDs inside the solver run; real ones natively in the frontier suite)", "kvmodel follows the corekv contract"],
     "outside_claim": ["'filed under the hash of its own bytes' and byte-identical genesis bytes (sha256, dag-cbor reflection)", "closure under ancestry as ensured by net.syncDAG (network, goroutines)",
                       "AddDelta with more than one head (the height rule is checked through AddDelta for linear field histories, and through heads.List for the greatest height)"],
